@@ -44,7 +44,7 @@ func checkC02(c *Ctx) error {
 	}
 	ex, err := c.runTLC(TLCRun{Module: "MC_C01", Seed: c.Seed, Timeout: 40 * time.Minute,
 		Constants: map[string]string{"Sigma": "<- MCSigma", "N": "= 3", "LeafD": "<- MCLeafD", "Deviations": "<- MCDev", "Cfg": "<- MCCfg",
-			"PoolSel": `= "hyg"`, "MaxLines": "= " + lines, "MaxDepth": "= 1", "Export": "= TRUE", "Theorem": "= FALSE"},
+			"PoolSel": `= "hyg"`, "CfgSel": `= "absent"`, "MaxLines": "= " + lines, "MaxDepth": "= 1", "Export": "= TRUE", "Theorem": "= FALSE"},
 		Invs: []string{"Compiles", "ExportCase"}}, rp.onCase)
 	ferr := rp.finish()
 	if err != nil {
